@@ -70,7 +70,10 @@ def run_impl(histories, profile="debug", snap=False, timeout=600, exe=None, env=
     exe = exe or hx_path(profile)
     res = {}
     todo = list(histories)
+    crashes = 0
     while todo:
+        if crashes >= 20:
+            break           # the build is thoroughly broken: twenty crashing histories are enough to report
         inp = format_histories(todo)
         args = [exe] + (["--snap"] if snap else [])
         try:
@@ -102,6 +105,7 @@ def run_impl(histories, profile="debug", snap=False, timeout=600, exe=None, env=
         msg = [m for m in msg if m.strip()]
         short = msg[-1][:160] if msg else ""
         ops[-1][1].append(f"exit {rc} {short}".strip())
+        crashes += 1
         res.update(part)
         idx = [h for h, _ in todo].index(crashed)
         todo = todo[idx + 1:]
